@@ -184,6 +184,14 @@ impl FsOcflStore {
     fn get_inventory_by_path(&self, object_id: &str, object_root: &str) -> Result<Inventory> {
         let object_root = self.storage_root.join(object_root);
 
+        if object_root.is_dir()
+            && !is_object_root(&object_root)?
+            && !paths::inventory_path(&object_root).exists()
+        {
+            // A directory of the storage hierarchy that leads to other objects, not an object
+            return Err(not_found(object_id, None));
+        }
+
         if object_root.exists() {
             let inventory = parse_inventory(&object_root, &self.storage_root)?;
 
